@@ -3,10 +3,12 @@ package main
 import (
 	"cmp"
 	"fmt"
+	"math"
 	"reflect"
 	"slices"
 
 	"github.com/emirpasic/gods/v2/containers"
+	"github.com/emirpasic/gods/v2/lists/arraylist"
 )
 
 // C16: returned slices are snapshots and argument slices are copied. The fault of this world is the
@@ -243,6 +245,7 @@ func (w *scribbleWorld) Exec(p *Plan, st *RunStats) *Violation {
 					}
 				}
 			case "Sorted":
+				typedSortedProbe(o, op.ID)
 				s.(SortedSubject).SortedProbe(o)
 				same("GetSortedValues/GetSortedValuesFunc")
 			default:
@@ -278,4 +281,58 @@ func (w *scribbleWorld) Exec(p *Plan, st *RunStats) *Violation {
 	st.NonTrivial = scribbles >= 1
 	_ = fmt.Sprint
 	return o.V
+}
+
+// ---- GetSortedValues over other ordered element types ---------------------------------------------------
+
+type celsius float64
+type tag string
+
+func eqNaN[T cmp.Ordered](a, b T) bool { return a == b || (a != a && b != b) }
+
+// sortedTyped: containers.GetSortedValues is generic over every ordered type; the worlds' element
+// types are int, string and float64, so a few more (float32 and a named float with NaN, small and
+// unsigned ints, a named string) are probed here against slices.Sort.
+func sortedTyped[T cmp.Ordered](o *Oracle, name string, vals []T) {
+	l := arraylist.New[T](vals...)
+	got := containers.GetSortedValues[T](l)
+	want := slices.Clone(vals)
+	slices.Sort(want)
+	ok := len(got) == len(want)
+	for i := 0; ok && i < len(got); i++ {
+		ok = eqNaN(got[i], want[i])
+	}
+	if !ok {
+		o.Fail("C16", "sorted-content", "GetSortedValues over %s elements %v returned %v, want %v", name, vals, got, want)
+		return
+	}
+	after := l.Values()
+	for i := range vals {
+		if i >= len(after) || !eqNaN(after[i], vals[i]) {
+			o.Fail("C16", "sorted-altered-container", "GetSortedValues over %s elements reordered the container: %v -> %v", name, vals, after)
+			return
+		}
+	}
+}
+
+func typedSortedProbe(o *Oracle, opID int) {
+	n := 2 + derive(opID, 5, 5)
+	f32 := make([]float32, n)
+	cel := make([]celsius, n)
+	i8 := make([]int8, n)
+	u16 := make([]uint16, n)
+	tg := make([]tag, n)
+	for i := 0; i < n; i++ {
+		x := derive(opID, 100+i, 9)
+		f32[i] = []float32{3, float32(math.NaN()), 1, 2, -1, float32(math.Inf(1)), 0, 7.5, float32(math.Inf(-1))}[x]
+		cel[i] = []celsius{3, celsius(math.NaN()), 1, 2, -1, celsius(math.Inf(1)), 0, 7.5, -40}[x]
+		i8[i] = []int8{3, -128, 1, 2, -1, 127, 0, 7, -40}[x]
+		u16[i] = []uint16{3, 65535, 1, 2, 40000, 127, 0, 7, 256}[x]
+		tg[i] = []tag{"b", "", "a", "B", "ab", "z", "é", "A", "~"}[x]
+	}
+	sortedTyped(o, "float32", f32)
+	sortedTyped(o, "named float64", cel)
+	sortedTyped(o, "int8", i8)
+	sortedTyped(o, "uint16", u16)
+	sortedTyped(o, "named string", tg)
 }
